@@ -39,6 +39,7 @@ fn run_child(harness: &str, cfg: Value) {
         "c09" => Box::new(move || harness::queue::c09(&cfg)),
         "c06" => Box::new(move || harness::uow::c06(&cfg)),
         "c10" => Box::new(move || harness::agg::c10(&cfg)),
+        "c10_last_handle_on_worker" => Box::new(move || harness::agg::c10_last_handle_on_worker(&cfg)),
         "c10_mutex" => Box::new(move || harness::agg::c10_mutex(&cfg)),
         "c11_shared" => Box::new(move || harness::agg::c11_shared(&cfg)),
         "c17" => Box::new(move || harness::global::c17(&cfg)),
